@@ -126,3 +126,137 @@ Example C11_ex_restart_header :
   t_hdr (o_target o) = b_hdr exB /\
   map s_cur (t_slots (o_target o)) = [[]; [1;2;3]; [4;5]; [6;7;8;9]].
 Proof. vm_compute. repeat split; reflexivity. Qed.
+
+(* ==================================================================================== *)
+(** * C11 at byte level (Dl/UpdateByteResume.v over the composed theorem of C04)
+
+    [BF.byte_update] is the byte-level run of zck_dl.c assembled from the component models
+    of the other verticals (see C04_byte_level_reconstructs_B).  [BRs.good_B H p h fb]: B
+    ([fb]) is accepted by the header reader with record [h], is valid and ends with its data
+    section.  [tf_crash] is ANY byte string - whatever an interruption after any number
+    of written bytes, in the header, inside a chunk, inside a multipart part header (part
+    headers are never written to the file), left at the target path; the flag list and the
+    context state the restart starts with are arbitrary as well.  The statements therefore
+    also cover a restart that is itself interrupted, any number of times. *)
+From ZV Require Format.Header Format.ParseImpl Format.ParseExamples Read.Scan Dl.DlWrite
+                Dl.UpdateLink Dl.UpdateByteRun Dl.UpdateByteFinal Dl.UpdateByteResume.
+Module BRs := Dl.UpdateByteResume.
+Module BF := Dl.UpdateByteFinal.
+Module BR := Dl.UpdateByteRun.
+Module L := Dl.UpdateLink.
+Module Hd := Format.Header.
+Module Sc := Read.Scan.
+Module PI := Format.ParseImpl.
+
+(** (a) the restart converges: the reader finds B's header in the target after the header
+    fetch, and the run ends regularly with the target byte-identical to B and every flag 1 -
+    or two different byte strings with the same chunk checksum exist. *)
+Theorem C11_byte_level_restart_converges :
+  forall (H : N -> bytes -> bytes) (p : PI.pins) (h : Hd.header) (fb : bytes),
+  BRs.good_B H p h fb ->
+  forall (old : option (Hd.header * bytes)) (serve : list Dl.DlWrite.rentry -> BR.resp) (srv : N)
+         (tf_crash : bytes) (fl : list Z) (st : Sc.rstate),
+  BF.old_ok h old -> 1 <= srv -> BF.serves_B h fb serve ->
+  PI.parse_impl H p (BRs.after_fetch h fb tf_crash) = PI.POk h /\
+  (collision (L.Hc_of H h) \/
+   exists fl' ev, BF.byte_update H h fb old serve srv tf_crash fl st = Some (BR.BFinish, fl', fb, ev) /\
+                  (forall i c, nth_error (Hd.h_chunks h) i = Some c -> nth i fl' 0%Z = 1%Z)).
+Proof. exact BRs.restart_converges. Qed.
+Print Assumptions C11_byte_level_restart_converges.
+
+(** (b) nothing that is completely and correctly in the partial file is fetched again.  In the
+    run from [tf_crash]: no chunk is served twice; every request - served or refused - asks
+    only for chunks whose extent in the target after the header fetch does NOT pass the
+    validity test (C09: inside the file and hashing to the index digest) and which the old
+    file cannot supply; conversely a chunk whose extent lies inside that file and hashes to
+    its digest appears in no request.  (Requests are lists of chunk indices; the byte ranges
+    are the merged extents of these chunks: C04_link_missing_range / C10.) *)
+Theorem C11_byte_level_no_refetch :
+  forall (H : N -> bytes -> bytes) (p : PI.pins) (h : Hd.header) (fb : bytes),
+  BRs.good_B H p h fb ->
+  forall (old : option (Hd.header * bytes)) (serve : list Dl.DlWrite.rentry -> BR.resp) (srv : N)
+         (tf_crash : bytes) (fl : list Z) (st : Sc.rstate),
+  BF.old_ok h old -> 1 <= srv -> BF.serves_B h fb serve ->
+  collision (L.Hc_of H h) \/
+  exists fl' ev, BF.byte_update H h fb old serve srv tf_crash fl st = Some (BR.BFinish, fl', fb, ev) /\
+    NoDup (served_chunks ev) /\
+    (forall i, In i (asked_chunks ev) ->
+       exists c, nth_error (Hd.h_chunks h) i = Some c /\
+         Sc.present h (BRs.after_fetch h fb tf_crash) c &&
+         Sc.digest_ok H h c (Sc.stored h (BRs.after_fetch h fb tf_crash) c) = false /\
+         usable_in (L.Hc_of H h) (BF.old_abs old) (L.uchunk c) = false) /\
+    (forall i c, nth_error (Hd.h_chunks h) i = Some c ->
+       Sc.present h (BRs.after_fetch h fb tf_crash) c = true ->
+       Sc.digest_ok H h c (Sc.stored h (BRs.after_fetch h fb tf_crash) c) = true ->
+       ~ In i (asked_chunks ev)).
+Proof. exact BRs.restart_no_refetch. Qed.
+Print Assumptions C11_byte_level_no_refetch.
+
+(** (c) partial chunks are never trusted: the validity scan of the restart (byte-level model
+    of validate_checksums, any flags and context state before) terminates, leaves the file
+    as it is, and flags a chunk 1 only if it is the empty first entry or its whole extent
+    lies inside the file and its bytes hash to the index digest. *)
+Theorem C11_byte_level_partial_never_trusted :
+  forall (H : N -> bytes -> bytes) (p : PI.pins) (h : Hd.header) (fb : bytes),
+  BRs.good_B H p h fb ->
+  forall (tf_crash : bytes) (fl : list Z) (st : Sc.rstate),
+  exists r, Sc.validate_checksums H h (BRs.after_fetch h fb tf_crash) fl st = Some r /\
+    Sc.s_file r = BRs.after_fetch h fb tf_crash /\
+    forall i c, nth_error (Hd.h_chunks h) i = Some c -> nth_error (Sc.s_flags r) i = Some 1%Z ->
+      Sc.empty_first (Nat.eqb i 0) c = true \/
+      (Sc.present h (BRs.after_fetch h fb tf_crash) c = true /\
+       Sc.digest_ok H h c (Sc.stored h (BRs.after_fetch h fb tf_crash) c) = true).
+Proof. exact BRs.restart_scan_sound. Qed.
+Print Assumptions C11_byte_level_partial_never_trusted.
+
+(** Non-vacuity: the sealed toy file of the C04 examples (empty dictionary entry, chunks "abc"
+    and "de", header 99 bytes), interrupted (1) two bytes into "abc", (2) after "abc" and one
+    byte of "de", (3) in the middle of the header. *)
+Definition cx_z16 : bytes := repeat 0 16%nat.
+Definition cx_c1 : bytes := [97; 98; 99].
+Definition cx_c2 : bytes := [100; 101].
+Definition cx_d (m : bytes) : bytes := Format.ParseExamples.toyH 3 m.
+Definition cx_index : bytes :=
+  [131; 131] ++ cx_z16 ++ [128; 128] ++ cx_d cx_c1 ++ [131; 131] ++ cx_d cx_c2 ++ [130; 130].
+Definition cx_hdr : bytes := cx_d (cx_c1 ++ cx_c2) ++ [128; 128; 184] ++ cx_index ++ [128].
+Definition cx_file : bytes :=
+  Hd.magic_zck ++ [131; 204] ++ cx_d (Hd.magic_zck ++ [131; 204] ++ cx_hdr) ++ cx_hdr ++ cx_c1 ++ cx_c2.
+Definition cx_h : Hd.header :=
+  Hd.mkHeader false 3 23 76 (cx_d (Hd.magic_zck ++ [131; 204] ++ cx_hdr)) (cx_d (cx_c1 ++ cx_c2)) 0 0 3 3
+    [Hd.mkChunk cx_z16 None 0 0 0; Hd.mkChunk (cx_d cx_c1) None 3 3 0; Hd.mkChunk (cx_d cx_c2) None 2 2 3] 19 56.
+
+Example C11_ex_byte_level_good_B : BRs.good_B Format.ParseExamples.toyH PI.no_pins cx_h cx_file.
+Proof.
+  split; [vm_compute; reflexivity|]. split; [apply wf_bytesb_spec; vm_compute; reflexivity|].
+  split; [reflexivity|]. split; [split; [repeat constructor|reflexivity]|].
+  split; [vm_compute; reflexivity|]. split; [vm_compute; reflexivity|].
+  split; [repeat constructor|intros _; vm_compute; reflexivity].
+Qed.
+
+(** (1) killed two bytes into chunk 1: the restart does not trust the partial chunk (flags after
+    its scan: dictionary valid, the others failed) and fetches chunks 1 and 2 *)
+Example C11_ex_byte_level_mid_chunk :
+  let crash := firstn 101 cx_file in
+  BF.byte_update Format.ParseExamples.toyH cx_h cx_file None (BF.plain_server cx_h cx_file) 1000 crash [] (Sc.opened cx_h)
+    = Some (BR.BFinish, [1; 1; 1]%Z, cx_file, [Served [1; 2]%nat 1]) /\
+  (match Sc.validate_checksums Format.ParseExamples.toyH cx_h (BRs.after_fetch cx_h cx_file crash) [] (Sc.opened cx_h) with
+   | Some r => Sc.s_flags r | None => [] end) = [1; -1; -1]%Z.
+Proof. vm_compute. split; reflexivity. Qed.
+
+(** (2) killed after chunk 1 and one byte of chunk 2: chunk 1 is not requested again *)
+Example C11_ex_byte_level_no_refetch :
+  BF.byte_update Format.ParseExamples.toyH cx_h cx_file None (BF.plain_server cx_h cx_file) 1000
+                 (firstn 103 cx_file) [] (Sc.opened cx_h)
+    = Some (BR.BFinish, [1; 1; 1]%Z, cx_file, [Served [2]%nat 1]).
+Proof. vm_compute. reflexivity. Qed.
+
+(** (3) killed in the middle of the header, garbage behind it; then the restart is itself
+    interrupted after chunk 1 (the state of (2)) and restarted once more *)
+Example C11_ex_byte_level_header_then_again :
+  BF.byte_update Format.ParseExamples.toyH cx_h cx_file None (BF.plain_server cx_h cx_file) 1
+                 (firstn 40 cx_file ++ [7; 7; 7]) [] (Sc.opened cx_h)
+    = Some (BR.BFinish, [1; 1; 1]%Z, cx_file, [Served [1; 2]%nat 1]) /\
+  BF.byte_update Format.ParseExamples.toyH cx_h cx_file None (BF.plain_server cx_h cx_file) 1
+                 (firstn 102 cx_file) [] (Sc.opened cx_h)
+    = Some (BR.BFinish, [1; 1; 1]%Z, cx_file, [Served [2]%nat 1]).
+Proof. vm_compute. split; reflexivity. Qed.
